@@ -19,6 +19,7 @@ RULE = (
     "recomputes interval membership from the reported boundaries, re-fits a deep copy of the template to exactly those rows, compares dependence-fit inputs with "
     "(references, estimates), checks that each call received its own dimension's (method, weights) and compares fits across row orders. Non-trivial = at least 3 "
     "intervals and unsorted or tied data; distinct = (data seed, slicer configuration, fit options, order, history)."
+    ' Also: explicit value ranges for the width and number slicers, every slice_ call inside a fit judged by the slicer oracle, histories crossed with slicers, conditional templates whose first parameter is fixed.'
 )
 ASSUMPTIONS = [
     "order-invariance tolerance: closed-form estimators 1e-9, optimiser-based (Nelder-Mead) estimators 1e-3 relative on estimates; dependence functions compared by value (rel 1e-3) over the conditioning range",
